@@ -113,6 +113,33 @@ fn webauthn(cfg: &Cfg, rep: &mut Report, h: u64) {
     let g = genuine(&mut rng, &sk, 0x05);
     rep.op(format!("webauthn key/payload fresh; client data {}", String::from_utf8_lossy(&g.client_data)));
     accept(rep, "genuine", &g);
+    // other shapes of the client data an authenticator / browser may legitimately produce: member order,
+    // further (also nested) members, insignificant white space. Re-signed, so all of them are genuine.
+    {
+        let ch = String::from_utf8_lossy(&b64url(&g.payload)).to_string();
+        let other = String::from_utf8_lossy(&b64url(&rng.bytes::<32>())).to_string();
+        let shapes: Vec<(&str, String, bool)> = vec![
+            ("challenge-before-type", format!("{{\"challenge\":\"{ch}\",\"type\":\"webauthn.get\",\"origin\":\"https://example.com\",\"crossOrigin\":false}}"), true),
+            ("type-last", format!("{{\"origin\":\"https://example.com\",\"crossOrigin\":false,\"challenge\":\"{ch}\",\"type\":\"webauthn.get\"}}"), true),
+            ("extra-string-member", format!("{{\"type\":\"webauthn.get\",\"challenge\":\"{ch}\",\"origin\":\"https://example.com\",\"crossOrigin\":false,\"other_keys_can_be_added_here\":\"do not compare clientDataJSON against a template\"}}"), true),
+            ("nested-member", format!("{{\"type\":\"webauthn.get\",\"challenge\":\"{ch}\",\"origin\":\"https://example.com\",\"tokenBinding\":{{\"status\":\"supported\",\"ids\":[1,2,3]}},\"crossOrigin\":true}}"), true),
+            ("white-space", format!("{{ \"type\" : \"webauthn.get\" ,\n  \"challenge\" : \"{ch}\" ,\t\"origin\" : \"https://example.com\" }}"), true),
+            // not genuine: the right values appear, but not as the top-level type / challenge members
+            ("decoy-challenge-in-other-member", format!("{{\"type\":\"webauthn.get\",\"challenge\":\"{other}\",\"origin\":\"https://example.com/?challenge={ch}\",\"x\":{{\"challenge\":\"{ch}\"}}}}"), false),
+            ("decoy-type-in-nested-member", format!("{{\"type\":\"webauthn.create\",\"challenge\":\"{ch}\",\"x\":{{\"type\":\"webauthn.get\"}}}}"), false),
+            ("challenge-with-suffix", format!("{{\"type\":\"webauthn.get\",\"challenge\":\"{ch}A\",\"origin\":\"https://example.com\"}}"), false),
+            ("type-with-suffix", format!("{{\"type\":\"webauthn.get2\",\"challenge\":\"{ch}\",\"origin\":\"https://example.com\"}}"), false),
+        ];
+        for (kind, json, good) in shapes {
+            let mut a = Assertion { payload: g.payload.clone(), key: g.key.clone(), auth_data: g.auth_data.clone(), client_data: json.into_bytes(), signature: g.signature };
+            a.signature = sign(&sk, &a.auth_data, &a.client_data);
+            if good {
+                accept(rep, &format!("client-data-shape/{kind}"), &a);
+            } else {
+                reject(rep, &format!("client-data-shape/{kind}"), &a);
+            }
+        }
+    }
     // every bit of the payload
     for bit in 0..256 {
         let mut a = Assertion { payload: g.payload.clone(), key: g.key.clone(), auth_data: g.auth_data.clone(), client_data: g.client_data.clone(), signature: g.signature };
@@ -367,7 +394,7 @@ fn encoder(cfg: &Cfg, rep: &mut Report) {
 }
 
 pub fn run(cfg: &Cfg, rep: &mut Report) {
-    rep.rule = "Per history a fresh P-256 (resp. Ed25519) key pair and 32-byte payload; a genuine assertion built with independent crypto (p256, ed25519-dalek, sha2) must be accepted by the real verifier examples; then single corruptions: every bit of the payload (256), sampled bits of key / signature / authenticator data / client data, all 256 flag bytes re-signed (accept iff UP and UV and not(BS without BE)), type variants, challenge variants (padded, standard alphabet, other payload, truncated, empty, hex, case), client data of 1023/1024/1025/2000 bytes, authenticator data of 33/36/37/120 bytes, payloads of 0/1/31 bytes, another signer; Ed25519 payloads of 0/1/31/33/48/64/100 bytes (genuine accepted, prefix signature and altered tail rejected). Encoder: all inputs of length 0-2 exhaustively (split over shards), random inputs of every length 3..=100, fill patterns. Distinct case = (verifier, corruption kind or flag bits, outcome). Not judged: WebAuthn payloads longer than 32 bytes (documented: first 32 bytes used) and algebraic signature malleability (host behaviour).".into();
+    rep.rule = "Per history a fresh P-256 (resp. Ed25519) key pair and 32-byte payload; a genuine assertion built with independent crypto (p256, ed25519-dalek, sha2) must be accepted by the real verifier examples; then single corruptions: every bit of the payload (256), sampled bits of key / signature / authenticator data / client data, all 256 flag bytes re-signed (accept iff UP and UV and not(BS without BE)), client-data shapes (member order, further and nested members, white space; decoys of type / challenge inside other members), type variants, challenge variants (padded, standard alphabet, other payload, truncated, empty, hex, case), client data of 1023/1024/1025/2000 bytes, authenticator data of 33/36/37/120 bytes, payloads of 0/1/31 bytes, another signer; Ed25519 payloads of 0/1/31/33/48/64/100 bytes (genuine accepted, prefix signature and altered tail rejected). Encoder: all inputs of length 0-2 exhaustively (split over shards), random inputs of every length 3..=100, fill patterns. Distinct case = (verifier, corruption kind or flag bits, outcome). Not judged: WebAuthn payloads longer than 32 bytes (documented: first 32 bytes used) and algebraic signature malleability (host behaviour).".into();
     let nh = cfg.pick(12u64, 1200);
     for k in 0..nh {
         if cfg.runs(k) {
